@@ -293,21 +293,67 @@ Section SignedContent.
   Variable sha : list Z -> hash.
   Variable verify : hash -> list Z -> pubkey -> bool.
   Variable recover : hash -> list Z -> Z -> option pubkey.
-  Variable payee_of_fields : list field -> option pubkey.
+  Variable decode_pk : list Z -> option pubkey.
   (** ECDSA public-key recovery returns a key under which the signature verifies. *)
   Hypothesis recover_sound : forall h sg rid pk, recover h sg rid = Some pk -> verify h sg pk = true.
 
   Lemma signed_content (s : signed_raw) :
-    check_signature hash pubkey sha verify recover payee_of_fields s = true ->
+    check_signature hash pubkey sha verify recover decode_pk s = true ->
     exists pk,
-      payee_pub_key hash pubkey sha recover payee_of_fields s = Some pk /\
+      payee_pub_key hash pubkey sha recover decode_pk s = Some pk /\
       verify (sha (signable_bytes (print_hrp (sr_hrp s)) (ser_data (sr_ts s) (sr_fields s)))) (sr_sig s) pk = true.
   Proof.
     unfold check_signature, payee_pub_key, signable_hash. intros Hc.
-    destruct (payee_of_fields (sr_fields s)) as [pk|].
+    destruct (payee_of_fields pubkey decode_pk (sr_fields s)) as [pk|].
     - exists pk. split; [reflexivity | exact Hc].
     - destruct (recover _ (sr_sig s) (sr_rid s)) as [pk|] eqn:E; [|discriminate].
       exists pk. split; [reflexivity|]. eapply recover_sound. exact E.
+  Qed.
+
+  (** Which [n] field is authoritative when there are several (or when other fields of tag 19 with
+      a different length precede it): the first 53-symbol one.  Whatever follows it, including
+      further [n] fields, the signature is checked against that key and that key is the one reported. *)
+  Lemma filter_none {A} (f : A -> bool) l : (forall x, In x l -> f x = false) -> filter f l = [].
+  Proof.
+    induction l as [|x l IH]; intros Hf; [reflexivity|]. cbn [filter].
+    rewrite (Hf x (or_introl eq_refl)). apply IH. intros y Hy. apply Hf. right. exact Hy.
+  Qed.
+
+  Lemma first_payee_field_first (pre : list field) d (post : list field) : List.length d = 53%nat ->
+    (forall f, In f pre -> is_payee_field f = false) ->
+    first_payee_field (pre ++ (TAG_PAYEE_PUB_KEY, d) :: post) = Some d.
+  Proof.
+    intros Hl Hpre. unfold first_payee_field. rewrite filter_app, (filter_none _ _ Hpre). cbn [app filter].
+    unfold is_payee_field at 1. cbn [fst snd]. rewrite Z.eqb_refl, Hl. reflexivity.
+  Qed.
+
+  Lemma signed_content_first_n (s : signed_raw) (pre : list field) d (post : list field) pk :
+    sr_fields s = pre ++ (TAG_PAYEE_PUB_KEY, d) :: post -> List.length d = 53%nat ->
+    (forall f, In f pre -> is_payee_field f = false) -> decode_pk d = Some pk ->
+    check_signature hash pubkey sha verify recover decode_pk s = true ->
+    payee_pub_key hash pubkey sha recover decode_pk s = Some pk /\
+    verify (sha (signable_bytes (print_hrp (sr_hrp s)) (ser_data (sr_ts s) (sr_fields s)))) (sr_sig s) pk = true.
+  Proof.
+    intros Hf Hl Hpre Hd Hc.
+    assert (Hp : payee_of_fields pubkey decode_pk (sr_fields s) = Some pk).
+    { unfold payee_of_fields. rewrite Hf, (first_payee_field_first pre d post Hl Hpre). exact Hd. }
+    unfold check_signature in Hc. unfold payee_pub_key. rewrite Hp in Hc |- *.
+    split; [reflexivity | exact Hc].
+  Qed.
+
+  (** Without any 53-symbol [n] field the reported key is the recovered one. *)
+  Lemma signed_content_recovered (s : signed_raw) :
+    (forall f, In f (sr_fields s) -> is_payee_field f = false) ->
+    check_signature hash pubkey sha verify recover decode_pk s = true ->
+    exists pk, recover (signable_hash hash sha s) (sr_sig s) (sr_rid s) = Some pk /\
+               payee_pub_key hash pubkey sha recover decode_pk s = Some pk.
+  Proof.
+    intros Hn Hc.
+    assert (Hp : payee_of_fields pubkey decode_pk (sr_fields s) = None).
+    { unfold payee_of_fields, first_payee_field. rewrite (filter_none _ _ Hn). reflexivity. }
+    unfold check_signature in Hc. unfold payee_pub_key. rewrite Hp in Hc |- *.
+    destruct (recover (signable_hash hash sha s) (sr_sig s) (sr_rid s)) as [pk|]; [|discriminate].
+    exists pk. split; reflexivity.
   Qed.
 
   (** Two accepted invoices with equal hrp, timestamp and fields are the same signed content:
